@@ -401,6 +401,7 @@ func (f *fileState) readAt(bs []byte, off int64) (int, error) {
 type State struct {
 	files     map[string]*fileState
 	side      map[string][]byte
+	lostTail  map[string]bool
 	KeepStale bool
 	// ZeroFillHoles: materialise the never-fsynced tail of an earlier chunk as zero bytes (file size updated, data blocks
 	// not written) instead of a short chunk file.  Outside the "per-file prefix" fault model; thorough tier only.
@@ -420,6 +421,11 @@ type ImgFile struct {
 type Image struct {
 	Files map[string]*ImgFile
 	Side  map[string][]byte
+	// LostTail: files of which this crash (or an earlier one in the life of the directory) removed written, never-fsynced bytes
+	// of an EARLIER chunk file than the one Sync() reached (multiapp.Sync fsyncs the current chunk only; with non-retryable
+	// sync a full chunk is only flushed at rotation).  Where a later chunk exists the range reads as a hole, unless older
+	// fsynced bytes (a stale tail) lie underneath: then it reads as those.  Informative (cause attribution), not hashed.
+	LostTail map[string]bool
 }
 
 func (im *Image) Hash() [32]byte {
@@ -460,8 +466,11 @@ func (im *Image) Sizes() map[string]int {
 }
 
 func NewState(base *Image, keepStale bool) *State {
-	s := &State{files: map[string]*fileState{}, side: map[string][]byte{}, KeepStale: keepStale}
+	s := &State{files: map[string]*fileState{}, side: map[string][]byte{}, lostTail: map[string]bool{}, KeepStale: keepStale}
 	if base != nil {
+		for n := range base.LostTail {
+			s.lostTail[n] = true
+		}
 		for n, f := range base.Files {
 			c := append([]byte{}, f.Content...)
 			m := append([]byte{}, f.Mask...)
@@ -515,6 +524,11 @@ func (s *State) Apply(op *Op) (off int64, n int, err error) {
 		for name := range s.files {
 			if name == op.File || strings.HasPrefix(name, op.File+"/") {
 				delete(s.files, name)
+			}
+		}
+		for name := range s.lostTail {
+			if name == op.File || strings.HasPrefix(name, op.File+"/") {
+				delete(s.lostTail, name)
 			}
 		}
 		return 0, 0, nil
@@ -653,7 +667,10 @@ func (s *State) DurableRange(file string, off int64, n int) ([]byte, bool) {
 // Image materialises the crash image for a survival choice; files not mentioned lose every un-fsynced write.
 // all=true: every written byte survives (process kill without power loss).
 func (s *State) Image(surv map[string]Surv, all bool) *Image {
-	im := &Image{Files: map[string]*ImgFile{}, Side: map[string][]byte{}}
+	im := &Image{Files: map[string]*ImgFile{}, Side: map[string][]byte{}, LostTail: map[string]bool{}}
+	for n := range s.lostTail {
+		im.LostTail[n] = true
+	}
 	for n, f := range s.files {
 		c := append([]byte{}, f.durable...)
 		m := append([]byte{}, f.durMask...)
@@ -665,6 +682,11 @@ func (s *State) Image(surv map[string]Surv, all bool) *Image {
 		}
 		if k > len(f.pending) {
 			k = len(f.pending)
+		}
+		for i := k; i < len(f.pending); i++ {
+			if f.pending[i].off < f.currAppID*f.fsz() {
+				im.LostTail[n] = true
+			}
 		}
 		for i := 0; i < k; i++ {
 			c, m = overlayM(c, m, f.pending[i].off, f.pending[i].data)
@@ -809,7 +831,8 @@ func (fs *FS) pollSide() {
 		return
 	}
 	cur := map[string]string{}
-	// side files are the tbtree timestamp files "<index dir>/ts*" (plain files on the real fs)
+	// side files are the tbtree timestamp files "<index dir>/TIMESTAMP*" (tbtree.timestampFile; plain files on the real fs,
+	// written to a temp file, fsynced and renamed: durable as soon as they are visible)
 	ents, _ := os.ReadDir(fs.Root)
 	for _, e := range ents {
 		if !e.IsDir() || !strings.HasPrefix(e.Name(), "index") {
@@ -817,7 +840,7 @@ func (fs *FS) pollSide() {
 		}
 		sub, _ := os.ReadDir(filepath.Join(fs.Root, e.Name()))
 		for _, f := range sub {
-			if f.IsDir() || !strings.HasPrefix(f.Name(), "ts") {
+			if f.IsDir() || !(strings.HasPrefix(f.Name(), "TIMESTAMP") || strings.HasPrefix(f.Name(), "ts")) {
 				continue
 			}
 			b, err := os.ReadFile(filepath.Join(fs.Root, e.Name(), f.Name()))
